@@ -23,12 +23,16 @@ deep-copies it.  The model keeps, per flow, the observation taken at the first b
  * backup     : backup() itself changes nothing observable; a second backup keeps the first.
  * copy       : fresh id (never seen in this case), not live, equal observation/state apart from id,
                 the source is unchanged.
+ * save+load  : the flow is written with the real FlowWriter and read back with the real FlowReader; the loaded object replaces
+                the flow in the population (same observation, same state, backup still present) and all monitors continue,
+                in particular modified() must still be False while the state equals the backup.
  * set_state  : f.set_state(g.get_state()) for two flows of the population makes f equal to g (observation, state, backup).
  * isolation  : an operation on one flow never changes the observation / state of any other flow of
                 the population (copy aliasing), checked after every operation.
 """
 import copy
 import dataclasses
+import io
 import ipaddress
 import os
 import traceback
@@ -40,6 +44,8 @@ from mitmproxy import http
 from mitmproxy import tcp
 from mitmproxy import udp
 from mitmproxy import websocket
+from mitmproxy.io import FlowReader
+from mitmproxy.io import FlowWriter
 from mitmproxy.test import tflow
 from mitmproxy.test import tutils
 from vf.core import exc_site
@@ -55,14 +61,15 @@ ENGINE = "direct"
 TECHNIQUE = "model-based history monitor with an attribute-level observer"
 RULE = (
     "case = flow kind (http, http+resp, http+err, websocket, tcp, udp, dns, dns+resp) x a random sequence of 6-30 "
-    "operations (edit / backup / revert / copy / set_state from another flow) over the flow and up to 2 copies; edits include presence changes of optional sub-objects (response, websocket, error, trailers, connection fields) and in-place edits of containers that were None / present-but-empty / non-empty at backup or copy time (trailers, headers, metadata, message lists, certificate lists); edits draw from small value pools so that "
+    "operations (edit / backup / revert / copy / set_state from another flow / save+load through a flow file) over the flow and up to 2 copies; edits include presence changes of optional sub-objects (response, websocket, error, trailers, connection fields) and in-place edits of containers that were None / present-but-empty / non-empty at backup or copy time (trailers, headers, metadata, message lists, certificate lists); edits draw from small value pools so that "
     "no-op edits and edits that return to the backed-up value occur; distinct = (kind, set of edit families used, "
-    "#backups, #reverts, #copies, #set_state, saw 'state equal to backup while backup present', saw revert-after-edit, saw edit-after-copy) "
+    "#backups, #reverts, #copies, #set_state, #save+load, saw save+load while holding a backup, saw 'state equal to backup while backup present', saw revert-after-edit, saw edit-after-copy) "
     "signature; non-trivial = at least one backup or copy followed by an edit"
 )
 ASSUMPTIONS = [
     "backup() while a backup already exists keeps the first backup (the code's explicit `if not self._backup`)",
-    "a copy inherits the source's backup; 'differs from its backup' is read literally, so the copy's fresh id counts as a difference",
+    "a copy inherits the source's backup *content* under its own fresh id: that is the only reading under which 'a copy has a fresh id', 'revert restores exactly the backed-up state' and 'modified exactly when the state differs from the backup' can hold together (a copy of an unedited flow is unmodified, and reverting a copy does not give it the source's id)",
+    "a flow loaded from a flow file is a flow like any other: if it carries a backup, modified()/revert() must behave as before it was saved",
     "edits are made through public attributes of the flow and its parts (including optional fields of the two connection objects); the socket state of a connection is documented as not persisted and is not compared",
 ]
 LEVEL_TEXT = (
@@ -501,6 +508,8 @@ class Tracked:
         self.has_backup = False
         self.obs_b = None  # observation at (first) backup
         self.state_b = None  # get_state() minus backup at (first) backup
+        self.foreign_backup = False  # the backup was inherited through copy() from a flow with another id
+        self.reloaded_with_backup = False  # the flow went through a flow file (save + load) while holding this backup
 
 
 class HarnessInconsistent(Exception):
@@ -510,7 +519,13 @@ class HarnessInconsistent(Exception):
 def classify(kind, info):
     """Mechanism from the history: which operation preceded and how the state relates to the backup."""
     if kind == "modified-wrong" and info.get("expected") is False and info.get("has_backup") and info.get("got") is True:
+        if info.get("foreign_backup") and not info.get("backup_id_is_own"):
+            return "copy-backup-carries-source-id"
+        if info.get("reloaded_with_backup"):
+            return "backup-loaded-from-file-compares-lists-with-tuples"
         return "modified-true-while-state-equals-backup"
+    if kind == "revert-not-exact" and info.get("foreign_backup") and info.get("diff_keys") == ["id"] and info.get("state_diff_keys") == ["id"]:
+        return "copy-backup-carries-source-id"
     return None
 
 
@@ -520,7 +535,8 @@ def run_case(ctx, r, kind):
     ids_seen = {f0.id}
     hist = []
     fam_used = set()
-    n_backup = n_revert = n_copy = n_adopt = 0
+    n_backup = n_revert = n_copy = n_adopt = n_reload = 0
+    saw_reload_with_backup = False
     saw_equal_with_backup = saw_revert_after_edit = saw_edit_after_copy = False
     edit_after_backup_or_copy = False
     dirty = {}  # name -> edited since backup
@@ -555,7 +571,7 @@ def run_case(ctx, r, kind):
             ctx.count("modified")
             got = t.f.modified()
             if got != exp_obs:
-                info = {"expected": exp_obs, "got": got, "has_backup": t.has_backup}
+                info = {"expected": exp_obs, "got": got, "has_backup": t.has_backup, "foreign_backup": t.foreign_backup, "reloaded_with_backup": t.reloaded_with_backup, "backup_id_is_own": b is not None and b.get("id") == s.get("id")}
                 ctx.violation("modified-wrong", witness({"flow": t.name, **info}), classify("modified-wrong", info))
             ctx.count("backup_presence")
             if (b is not None) != t.has_backup:
@@ -567,7 +583,28 @@ def run_case(ctx, r, kind):
         t = r.choice(pop)
         before = {x.name: (observe(x.f), swb(x.f)) for x in pop}
         x = r.random()
-        if x < 0.55:
+        if x < 0.05:
+            # save to a flow file and load again (real FlowWriter / FlowReader): the loaded flow replaces the object
+            hist.append(f"{t.name}.save+load")
+            n_reload += 1
+            buf = io.BytesIO()
+            FlowWriter(buf).add(t.f)
+            buf.seek(0)
+            loaded = list(FlowReader(buf).stream())
+            ctx.count("save_load_keeps_flow")
+            g = loaded[0] if len(loaded) == 1 else None
+            if g is None or type(g) is not type(t.f):
+                ctx.violation("save-load-changed-flow", witness({"flow": t.name, "loaded": len(loaded)}), None)
+            else:
+                o, (s, b) = observe(g), swb(g)
+                bo, (bs, bb) = before[t.name]
+                if o != bo or s != bs or (b is None) != (bb is None):
+                    ctx.violation("save-load-changed-flow", witness({"flow": t.name, "diff_keys": [k for k in o if o[k] != bo.get(k)], "state_diff_keys": [k for k in s if s[k] != bs.get(k)]}), None)
+                t.f = g
+                if t.has_backup:
+                    t.reloaded_with_backup = True
+                    saw_reload_with_backup = True
+        elif x < 0.55:
             fam, fn = r.choice(edits_for(t.f))
             hist.append(f"{t.name}.edit:{fam}")
             fam_used.add(fam)
@@ -590,6 +627,7 @@ def run_case(ctx, r, kind):
                 t.has_backup = True
                 t.obs_b = before[t.name][0]
                 t.state_b = before[t.name][1][0]
+                t.foreign_backup = t.reloaded_with_backup = False
                 dirty[t.name] = False
         elif x < 0.87:
             hist.append(f"{t.name}.revert")
@@ -602,11 +640,8 @@ def run_case(ctx, r, kind):
                     saw_revert_after_edit = True
                 ctx.count("revert_restores")
                 if o != t.obs_b or s != t.state_b:
-                    ctx.violation(
-                        "revert-not-exact",
-                        witness({"flow": t.name, "diff_keys": [k for k in o if o[k] != t.obs_b.get(k)], "state_diff_keys": [k for k in s if s[k] != t.state_b.get(k)]}),
-                        None,
-                    )
+                    info = {"diff_keys": [k for k in o if o[k] != t.obs_b.get(k)], "state_diff_keys": [k for k in s if s[k] != t.state_b.get(k)], "foreign_backup": t.foreign_backup, "reloaded_with_backup": t.reloaded_with_backup}
+                    ctx.violation("revert-not-exact", witness({"flow": t.name, **info}), classify("revert-not-exact", info))
                 ctx.count("revert_clears_backup")
                 if b is not None or t.f._backup:
                     ctx.violation("revert-keeps-backup", witness({"flow": t.name}), None)
@@ -614,6 +649,7 @@ def run_case(ctx, r, kind):
                     ctx.count("observed.copy_revert_takes_source_id")
                 t.has_backup = False
                 t.obs_b = t.state_b = None
+                t.foreign_backup = t.reloaded_with_backup = False
                 dirty[t.name] = False
             else:
                 ctx.count("revert_without_backup_noop")
@@ -639,7 +675,7 @@ def run_case(ctx, r, kind):
                 problems.append("observation-differs")
             if no_id(sg) != no_id(bs):
                 problems.append("state-differs")
-            if bg != bb:
+            if (bg is None) != (bb is None) or (bg is not None and no_id(bg) != no_id(bb)):
                 problems.append("backup-differs")
             if problems:
                 ctx.violation("copy-wrong:" + ",".join(problems), witness({"flow": t.name, "diff_keys": [k for k in og if k != "id" and og[k] != bo.get(k)]}), None)
@@ -648,6 +684,13 @@ def run_case(ctx, r, kind):
             tg.has_backup = t.has_backup
             tg.obs_b = copy.deepcopy(t.obs_b)
             tg.state_b = copy.deepcopy(t.state_b)
+            if tg.has_backup:
+                # "a copy has a fresh id" and "revert restores exactly the backed-up state" can only both hold if the copy's
+                # backup is the copy's own: same content as the source's backup, under the copy's id
+                tg.obs_b["id"] = g.id
+                tg.state_b["id"] = g.id
+                tg.foreign_backup = True
+                tg.reloaded_with_backup = t.reloaded_with_backup
             dirty[name] = dirty.get(t.name, False)
             pop.append(tg)
             # the source must be unchanged: handled by check_all with target = the new copy
@@ -670,6 +713,7 @@ def run_case(ctx, r, kind):
             t.has_backup = src.has_backup
             t.obs_b = copy.deepcopy(src.obs_b)
             t.state_b = copy.deepcopy(src.state_b)
+            t.foreign_backup, t.reloaded_with_backup = src.foreign_backup, src.reloaded_with_backup
             dirty[t.name] = dirty.get(src.name, False)
         check_all(t, before)
     sig = (
@@ -679,6 +723,8 @@ def run_case(ctx, r, kind):
         min(n_revert, 3),
         n_copy,
         min(n_adopt, 2),
+        min(n_reload, 2),
+        saw_reload_with_backup,
         saw_equal_with_backup,
         saw_revert_after_edit,
         saw_edit_after_copy,
